@@ -158,9 +158,22 @@ CHECKS.update({
             "6 C02", SEQ_NOTE,
             "Coq proof (pipeline invariant for providers/summaries; claimability against the write model) + three-way differential execution "
             "+ claiming every returned candidate on the application (oracle)"),
+    'C11': ("proof", "Coq theorems: in every state reachable by well-formed requests, every read route of the model (provider, inventories, "
+            "single inventory, usages, allocations by provider and by consumer, traits, aggregates, total usages by project/user/consumer "
+            "type; every microversion) equals the reference semantics spec_view evaluated on the abstraction of the database (refinement, "
+            "from RI of C08, Forest of C09 and uniqueness of consumer uuids, all proved invariants); provider usage = sum of allocation "
+            "records = sum over consumers of what GET /allocations/{c} reports; per-consumer and per-provider views agree; accepted "
+            "inventory / trait / aggregate / allocation writes are read back exactly (read-after-write); a request answered with an error "
+            "changes no read; reads after any history equal reads after only its successful requests. Tie: (1) write histories model vs "
+            "application (status, code, generation, tables), (2) after every request of generated histories the read routes for every "
+            "provider/consumer/project of the pools at the microversions around each representation change, compared inside Coq with the "
+            "model's views; implementation-side oracle (usage sums, view agreement, reads unchanged after errors) searches failing inputs.",
+            "6 C11", SEQ_NOTE + " JSON field naming per microversion is compared through harness/reads.py:canon, not proved; provider listing "
+            "and allocation candidates are C13/C03.",
+            "Coq refinement proof (reads vs abstract reference semantics; invariants by induction over requests) + differential execution "
+            "of reads and writes (correspondence)"),
 })
 PENDING = {
-    'C11': 'check not built yet',
 }
 
 
@@ -195,7 +208,8 @@ def main():
         'checks': checks,
         'not_applicable': [{'property_id': p, 'reason': r} for p, r in sorted(list(PENDING.items()) + list(NOT_YET.items()))
                            if p not in CHECKS or p in NOT_YET],
-        'notes': 'fix: commits in /repo: 9ac319a (stray consumers). Known findings: known_findings.json.',
+        'notes': 'Genuine defects repaired in /repo by "fix:" commits and defects recorded as known findings: see known_findings.json '
+                 '(kind=fixed / kind=known) and DESIGN.md section 7. Seeded breaking changes used to test the checks: seeded/.',
     }
     json.dump(m, open(os.path.join(HERE, 'MANIFEST.json'), 'w'), indent=1)
 
